@@ -53,7 +53,8 @@ Section Rules.
 
   (* the string the command rules are matched against *)
   Definition cmd_string (aliases : list (str * str)) (cwd : str) (remote : bool) (words : list str) : str :=
-    if remote then join [c_sp] words else nwords cwd (resolved_words aliases cwd words).
+    if remote then join [c_sp] (map (expand_home_only home) words)   (* since 098b659: a leading ~ as in the patterns (parse time) *)
+    else nwords cwd (resolved_words aliases cwd words).
 
   Definition rule_pattern (cwd : str) (remote : bool) (r : rule) : str :=
     if remote then r_pat r else npattern cwd (r_pat r).
